@@ -67,4 +67,9 @@ def check(ctx: Ctx) -> str:
 
     ctx.use("nodes")
     async_fold_rule(ctx)
+    # the synchronous entry points of an async environment run the async form under
+    # asyncio.run, whose teardown closes the async generators still suspended (rule owned by C09)
+    from . import c09
+
+    ctx.run_imported("C09", {"R3"}, c09.check)
     return __doc__ or ""
